@@ -9,6 +9,8 @@ import (
 	"encoding/binary"
 	"encoding/hex"
 	"fmt"
+	"os"
+	"runtime/debug"
 	"sort"
 
 	"cosmossdk.io/x/tx/signing"
@@ -100,6 +102,9 @@ func deliver(ctx sdk.Context, router *baseapp.MsgServiceRouter, msg sdk.Msg) (re
 	before := ctx.GasMeter().GasConsumed()
 	defer func() {
 		if r := recover(); r != nil {
+			if os.Getenv("VERIF_STACK") != "" {
+				fmt.Fprintf(os.Stderr, "panic in deliver: %v\n%s\n", r, debug.Stack())
+			}
 			res = Result{Panic: r, Err: fmt.Errorf("panic: %v", r)}
 		}
 		res.Gas = ctx.GasMeter().GasConsumed() - before
